@@ -136,10 +136,11 @@ static void case_shortread(const FileRef& f, uint32_t p, const std::string& byte
 
 int main(int argc, char** argv) {
     Args a = benum::parse_args(argc, argv);
-    std::string datadir = C06_DATA_DIR, part;
+    std::string datadir = C06_DATA_DIR, part, scope;     // scope (shortread): "subset" = the quick tier's cases, "rest" = all others
     for (size_t i = 0; i + 1 < a.rest.size(); i += 2) {
         if (a.rest[i] == "--data") datadir = a.rest[i + 1];
         else if (a.rest[i] == "--part") part = a.rest[i + 1];
+        else if (a.rest[i] == "--scope") scope = a.rest[i + 1];
     }
     g_seeds = load_seeds(datadir);
     if (g_seeds.empty()) { fprintf(stderr, "no seeds in %s\n", datadir.c_str()); return 2; }
@@ -162,19 +163,25 @@ int main(int argc, char** argv) {
         a.shard = 0; a.nshards = 1;
     } else {
         const bool T = a.thorough;
+        if (scope.empty()) scope = T ? "all" : "subset";
         for (size_t i = 0; i < g_seeds.size(); ++i) {
             const Seed& s = g_seeds[i];
-            std::vector<uint32_t> lens{static_cast<uint32_t>(s.data.size())};
-            if (s.trunc) for (uint32_t l = 2; l < s.data.size(); ++l) if (T || l % 8 == 3) lens.push_back(l);
-            for (uint32_t l : lens) {
+            for (uint32_t l = s.trunc ? 2 : static_cast<uint32_t>(s.data.size()); l <= s.data.size(); ++l) {
                 FileRef f{static_cast<int>(i), l};
-                if (part == "pieces") cases.push_back(Case{f, 0});
-                else for (uint32_t p = 1; p < l; ++p) if (T || l == s.data.size() || p % 8 == 5) cases.push_back(Case{f, p});
+                const bool whole = l == s.data.size();
+                if (part == "pieces") { if (T || whole || l % 8 == 3) cases.push_back(Case{f, 0}); continue; }
+                for (uint32_t p = 1; p < l; ++p) {
+                    const bool in_subset = whole || (l % 8 == 3 && p % 8 == 5);
+                    // "rest" (thorough): PBF - the parser's own read_exactly() - every prefix x every p; the other formats see a
+                    // short read as one cut at p, which the split part enumerates exhaustively: every 8th prefix x every p
+                    const bool in_rest = !in_subset && (s.fmt == "pbf" || l % 8 == 3);
+                    if (scope == "all" || (scope == "subset" && in_subset) || (scope == "rest" && in_rest)) cases.push_back(Case{f, p});
+                }
             }
         }
         bound_name = part == "pieces"
             ? std::string("real files (plain, gz, bz2; PBF: the parser's fd path) in pieces of ") + K + " bytes x all seeds + " + (T ? "every prefix" : "every 8th prefix") + " of the 't' seeds"
-            : std::string("plain files with read() returning short at offset p: all seeds x every p; ") + (T ? "every prefix of the 't' seeds x every p" : "every 8th prefix of the 't' seeds x every 8th p");
+            : std::string("plain files with read() returning short at offset p: ") + (scope == "subset" ? "all seeds x every p; every 8th prefix of the 't' seeds x every 8th p" : scope == "rest" ? "every prefix of the PBF 't' seeds x every p, every 8th prefix of the other 't' seeds x every p (minus the subset)" : "all seeds and every prefix of the 't' seeds x every p");
     }
     // consecutive ranks of one input go to the same shard (the file is written once per input there)
     std::string cur_bytes, cur_path; Result cur_base; int cur_seed = -1; uint32_t cur_len = 0;
